@@ -30,8 +30,8 @@ class View:
             return kv
         vals = z3.Select(ex.heap_get(st, "$val"), self.base.t)
         if self.kind == "values":
-            return SeqView(kv.n, lambda j: mk_any(z3.Select(vals, box(kv.elem(j)))), "values")
-        return SeqView(kv.n, lambda j: mk_tup([kv.elem(j), mk_any(z3.Select(vals, box(kv.elem(j))))]), "items")
+            return SeqView(kv.n, lambda j, c=None: mk_any(z3.Select(vals, box(kv.elem(j)))), "values")
+        return SeqView(kv.n, lambda j, c=None: mk_tup([kv.elem(j, c), mk_any(z3.Select(vals, box(kv.elem(j))))]), "items")
 
 
 def keys_view(ex, ctx, st, d, node):
@@ -48,11 +48,28 @@ def keys_view(ex, ctx, st, d, node):
     ctx.assume(z3.ForAll([q], z3.Implies(z3.And(q >= 0, q < n), z3.Select(has, z3.Select(el, q)))), "container-wf:keys-present")
     ctx.assume(z3.ForAll([q, q2], z3.Implies(z3.And(q >= 0, q < q2, q2 < n), z3.Select(el, q) != z3.Select(el, q2))),
                "container-wf:keys-distinct")
-    kf = z3.Function(f"keypos!{ctx.explorer.uid}.{ctx.fresh_n}", V, Int)
+    # keys are hashable: never a list / dict / set object
+    ctags = [c.tag for c in ex.reg.classes.values() if c.container]
+    ke = z3.Select(el, q)
+    ctx.assume(z3.ForAll([q], z3.Implies(z3.And(q >= 0, q < n),
+               z3.Not(z3.And(V.is_REF(ke), z3.Or(*[cls_of(V.r(ke)) == t for t in ctags]))))), "container-wf:keys-hashable")
+    _kp = z3.Function("keypos", el.sort(), V, Int)  # position of a key in a key list: a function of the list itself
+
+    def kf(x):
+        return _kp(el, x)
     kx = z3.Const(f"kx!{ctx.explorer.uid}.{ctx.fresh_n}", V)
     ctx.assume(z3.ForAll([kx], z3.Implies(z3.Select(has, kx), z3.And(kf(kx) >= 0, kf(kx) < n, z3.Select(el, kf(kx)) == kx))),
                "container-wf:keys-complete")
-    return SeqView(n, lambda j: mk_any(z3.Select(el, j)), "keys")
+    def key_at(j, c=None):
+        k = z3.Select(el, j)
+        if c is not None:  # instance of container-wf:keys-hashable at this index (feasibility checks drop quantifiers)
+            c.assume(z3.Implies(z3.And(j >= 0, j < n),
+                                z3.Not(z3.And(V.is_REF(k), z3.Or(*[cls_of(V.r(k)) == t for t in ctags])))),
+                     "container-wf:keys-hashable")
+            c.assume(z3.Implies(z3.And(j >= 0, j < n), z3.And(z3.Select(has, k), z3.Not(V.is_BOOL(k)))),
+                     "container-wf:keys-present (bool keys are stored as the ints they equal)")
+        return mk_any(k)
+    return SeqView(n, key_at, "keys")
 
 
 def hashable_key(ex, ctx, st, key, node):
@@ -509,7 +526,8 @@ def comprehension(ex, ctx, st, e, kind, frame, g, exprs, view):
     j = ctx.fresh("c", Int)
     res = pure_generic(ex, ctx, st, frame, g, exprs, view, j)
     if any(r.outcome == "raise" for r in res):
-        raise Unsupported("comprehension body may raise")
+        bad = [r.value for r in res if r.outcome == "raise"]
+        raise Unsupported("comprehension body may raise: " + "; ".join(f"{b.exc} at {b.where}" for b in bad[:3]))
     for r in res:
         ctx.assumptions_used.extend(r.assumptions)
     oks = [r for r in res if r.outcome == "ok"]
